@@ -367,3 +367,124 @@ func TestC02_Errors(t *testing.T) {
 		g.NonTrivial(fmt.Sprintf("%s/%d/%d", name, n, at))
 	})
 }
+
+// TestC02_LargeLists: the same oracles on lists far longer than the unit tests use.  The implementation may sum
+// points by batches (hashes of one key, keys of one message), so the sizes sit around the powers of two a batch length
+// would be: many (message, hasher) entries under one to three keys (one pairing per distinct key), and many keys,
+// among them keys held in projective form, under one or two messages (one pairing per distinct message).
+func TestC02_LargeLists(t *testing.T) {
+	gen.Run(t, "C02", func(g *gen.G) {
+		around := []int{15, 16, 17, 31, 32, 33, 63, 64, 65, 66, 127, 128, 129, 130, 200}
+		perKeyShape := g.Bool("manyMessagesPerKey")
+		groups := g.Int("groups", 1, 3)
+		sizes := make([]int, groups)
+		n := 0
+		for j := range sizes {
+			sizes[j] = around[g.Pick(fmt.Sprintf("size%d", j), len(around))]
+			if j > 0 && g.Bool("smallGroup") {
+				sizes[j] = g.Int("smallSize", 1, 5)
+			}
+			n += sizes[j]
+		}
+		tag := "c02-large"
+		h := crypto.NewExpandMsgXOFKMAC128(tag)
+		prefix := g.Bytes("msgPrefix", 0, 8)
+		hashPoint := func(m []byte) bls381.G1 { // H(m) as the signature of scalar 1 (membership is checked by TestC02_ManyMessages)
+			s, err := decodeSK(g, one).Sign(m, crypto.NewExpandMsgXOFKMAC128(tag))
+			if err != nil {
+				g.Fatalf("Sign with scalar 1 failed: %v", err)
+			}
+			pt, err := bls381.G1Decompress(s)
+			if err != nil || pt.Inf {
+				g.Fatalf("signature of scalar 1 is not a canonical encoding of a non-identity point: %x (%v)", []byte(s), err)
+			}
+			return pt
+		}
+		var pks []crypto.PublicKey
+		var ms [][]byte
+		var hs []hash.Hasher
+		sum := bls381.G1Infinity()
+		partial := bls381.G1Infinity() // Σ over the entries after the first 64 of each group only: what a lost batch would leave
+		base, _ := drawScalar(g, "base")
+		mkKey := func(label string, x *big.Int) crypto.PublicKey {
+			return pkVariant(g, label, blsKey{pk: decodeSK(g, x).PublicKey(), x: x})
+		}
+		for j, c := range sizes {
+			if perKeyShape {
+				// one key object, c distinct messages
+				x := new(big.Int).Add(base, big.NewInt(int64(j)))
+				x.Mod(x, blsR)
+				if x.Sign() == 0 {
+					x.SetInt64(5)
+				}
+				pk := mkKey(fmt.Sprintf("pkVia%d", j), x)
+				hsum, hpart := bls381.G1Infinity(), bls381.G1Infinity()
+				for i := 0; i < c; i++ {
+					m := append(append([]byte{}, prefix...), []byte(fmt.Sprintf("key %d message %d", j, i))...)
+					pks, ms, hs = append(pks, pk), append(ms, m), append(hs, h)
+					H := hashPoint(m)
+					hsum = hsum.Add(H)
+					if i >= 64 {
+						hpart = hpart.Add(H)
+					}
+				}
+				sum = sum.Add(hsum.Mul(x))
+				partial = partial.Add(hpart.Mul(x))
+			} else {
+				// one message, c distinct key objects
+				m := append(append([]byte{}, prefix...), []byte(fmt.Sprintf("message %d", j))...)
+				H := hashPoint(m)
+				xsum, xpart := new(big.Int), new(big.Int)
+				for i := 0; i < c; i++ {
+					x := new(big.Int).Add(base, big.NewInt(int64(1000*j+i)))
+					x.Mod(x, blsR)
+					if x.Sign() == 0 {
+						x.SetInt64(5)
+					}
+					pks, ms, hs = append(pks, mkKey(fmt.Sprintf("pkVia%d_%d", j, i), x)), append(ms, m), append(hs, h)
+					xsum.Add(xsum, x)
+					if i >= 16 {
+						xpart.Add(xpart, x)
+					}
+				}
+				sum = sum.Add(H.Mul(xsum.Mod(xsum, blsR)))
+				partial = partial.Add(H.Mul(xpart.Mod(xpart, blsR)))
+			}
+		}
+		perm := g.Perm("order", n)
+		pks2, ms2, hs2 := make([]crypto.PublicKey, n), make([][]byte, n), make([]hash.Hasher, n)
+		for i, p := range perm {
+			pks2[i], ms2[i], hs2[i] = pks[p], ms[p], hs[p]
+		}
+		expected := bls381.G1Compress(sum)
+		for rep := 0; rep < 2; rep++ {
+			if ok, err := crypto.VerifyBLSSignatureManyMessages(pks2, append([]byte{}, expected...), ms2, hs2); err != nil || !ok {
+				g.Fatalf("VerifyBLSSignatureManyMessages(%d entries in groups %v, manyMessagesPerKey=%v, Σ sk_i·H_i = %x) = (%v, %v), expected true", n, sizes, perKeyShape, expected, ok, err)
+			}
+		}
+		if !partial.Equal(sum) {
+			if ok, err := crypto.VerifyBLSSignatureManyMessages(pks2, bls381.G1Compress(partial), ms2, hs2); err != nil || ok {
+				g.Fatalf("VerifyBLSSignatureManyMessages(%d entries in groups %v) accepted the sum over a part of the entries only: (%v, %v)", n, sizes, ok, err)
+			}
+		}
+		if !perKeyShape && groups == 1 {
+			// all keys on one message: the one-message verification and the aggregated key agree with the oracle as well
+			if ok, err := crypto.VerifyBLSSignatureOneMessage(pks2, expected, ms2[0], h); err != nil || !ok {
+				g.Fatalf("VerifyBLSSignatureOneMessage over %d keys = (%v, %v), expected true", n, ok, err)
+			}
+			if ok, err := crypto.VerifyBLSSignatureOneMessage(pks2, bls381.G1Compress(partial), ms2[0], h); err != nil || ok {
+				g.Fatalf("VerifyBLSSignatureOneMessage over %d keys accepted the sum over a part of the keys: (%v, %v)", n, ok, err)
+			}
+		}
+		g.Class(fmt.Sprintf("largeLists:manyMessagesPerKey=%v", perKeyShape))
+		for _, c := range sizes {
+			switch {
+			case c > 64:
+				g.Class("largeLists:group>64")
+			case c >= 16:
+				g.Class("largeLists:group16..64")
+			}
+		}
+		g.NonTrivial()
+	})
+}
